@@ -4,11 +4,11 @@
 Require Extraction.
 Require ExtrOcamlBasic.
 From CPF.gen Require Import Tables.
-From CPF Require Import Base.Bytes Scan.Cst Scan.Build Scan.Decode Scan.Merge Scan.Pool Scan.SkelSem Scan.SkelAbs Lang.Lexer Lang.Ast Lang.Parser Engine.Eval Engine.Query Engine.Process Engine.Render Cli.Rules Cli.Ci.
+From CPF Require Import Base.Bytes Scan.Cst Scan.Build Scan.Decode Scan.Merge Scan.Pool Scan.SkelSem Scan.SkelAbs Lang.Lexer Lang.Ast Lang.Parser Engine.Eval Engine.Query Engine.QueryFacts Engine.Process Engine.Render Cli.Rules Cli.Ci.
 Definition decode_node := CPF.Scan.Decode.decode.
 Extraction Language OCaml.
 Extraction "model.ml" build_file census cst_wfb cst_size shape_okb
   lex_query parse_tokens parse_query flatten_query tokens_of_query
-  expanded_condition condition results spec_results in_fragment row collect get_files process_query console_session render_json render_text text_rows text_tuple
+  expanded_condition condition results spec_results wf_query in_fragment row collect get_files process_query console_session render_json render_text text_rows text_tuple
   pool_program sk_init sk_steps finished s_panic abs flags_agree enabled_steps init
   decode_node shape_of content parse_ci extract_file ci_run ci_sarif produce consume load_local.
